@@ -6,28 +6,34 @@
 (* state, the answer written to that coordinate only, nothing else changed.    *)
 EXTENDS Gibbs, Json, IOUtils, TLC
 Rec == ndJsonDeserialize(IOEnv.TRACE)
-VARIABLE l
-vars == <<gvars, l>>
+VARIABLES l, ends     \* ends: sweeps completed since the chain was started
+vars == <<gvars, l, ends>>
 
-Init == l = 1 /\ state = <<>> /\ next = 1 /\ calls = <<>>
+Init == l = 1 /\ state = <<>> /\ next = 1 /\ calls = <<>> /\ ends = 0
 
 Start ==
   /\ l <= Len(Rec) /\ Rec[l].e = "init"
   /\ next = 1                       \* never in the middle of a sweep
-  /\ state' = Rec[l].state /\ next' = 1 /\ calls' = <<>>
+  /\ state' = Rec[l].state /\ next' = 1 /\ calls' = <<>> /\ ends' = 0
   /\ l' = l + 1
 Call ==
   /\ l <= Len(Rec) /\ Rec[l].e = "call"
   /\ Rec[l].i + 1 = next            \* 0-based index in the code
   /\ Rec[l].given = state           \* shown the freshest state
   /\ Refresh(Rec[l].ret)
-  /\ l' = l + 1
+  /\ l' = l + 1 /\ UNCHANGED ends
 End ==
   /\ l <= Len(Rec) /\ Rec[l].e = "end"
   /\ EndStep
   /\ Rec[l].state = state           \* what step() left behind and returned
-  /\ l' = l + 1
-Next == Start \/ Call \/ End
+  /\ l' = l + 1 /\ ends' = ends + 1
+\* a sampler-level run() asked this chain for `sweeps` transitions: the chain's OWN conditional (the one the caller
+\* installed in the chain) was queried for every one of them
+Ran ==
+  /\ l <= Len(Rec) /\ Rec[l].e = "ran"
+  /\ next = 1 /\ Rec[l].sweeps = ends
+  /\ UNCHANGED <<gvars, ends>> /\ l' = l + 1
+Next == Start \/ Call \/ End \/ Ran
 Spec == Init /\ [][Next]_vars
 
 TraceAccepted ==
